@@ -1,6 +1,9 @@
 """C01: Verify.tla <-> vcr/verifier (+ issuer, wallet, resolver stack): TLC enumerates the complete abstract product of
 (document attributes x proof format x signer DID-document history x validation time x trust x revocation x flags) and of
-(MutationClass x PathClass); every case is built from real objects and judged on the real verifier."""
+(MutationClass x PathClass); every case is built from real objects and judged on the real verifier.
+Revocation through status lists: family "status" (own / external list x list length x entry position x fresh / cached copy x entry
+point) and family "race" (every interleaving of Revoke, the download of the list and its ageing on the producing node, operations
+split where they open their SQL transaction; the nodes are asked about the credentials after every step)."""
 import hashlib, json, os, re, time
 from concurrent.futures import ThreadPoolExecutor
 from .. import vlib
@@ -32,9 +35,13 @@ def err_class(err):
     return "other"
 
 
-def case_id(c):
-    h = hashlib.sha1(json.dumps(c, sort_keys=True).encode()).hexdigest()[:12]
+def case_id(c, sched=None):
+    h = hashlib.sha1(json.dumps([c, sched] if sched else c, sort_keys=True).encode()).hexdigest()[:12]
     return "%s-%s" % (c["fam"], h)
+
+
+def sched_text(sched):
+    return " ".join(s["a"] + ("(%s)" % s["o"] if s.get("o") else "") for s in sched if s["a"] not in ("Choose", "Issue"))
 
 
 def doc_key(c):
@@ -49,15 +56,23 @@ def doc_key(c):
         return "vpmulti|%s|%s|%s" % (c["fmt"], c["vcFmt"], c["seq"][0])
     if c["fam"] == "mut":
         return "mut|%s|%s" % (c["kind"], c["fmt"])
+    if c["fam"] == "status":
+        return "status|%s|%s" % (c["fmt"], c["list"])
     return c["fam"]
+
+
+def group_key(ci):
+    if ci["case"]["fam"] == "race":   # every behaviour has its own issuer and list: spread them over all processes
+        return "race|%d" % (int(hashlib.sha1(ci["id"].encode()).hexdigest(), 16) % 16)
+    return doc_key(ci["case"])
 
 
 def shard(cases, n):
     """deterministic, balanced assignment of document groups to n driver processes"""
     groups = {}
     for ci in cases:
-        groups.setdefault(doc_key(ci["case"]), []).append(ci)
-    weight = lambda k: len(groups[k]) * (6 if k.startswith("mut") or k == "pairs" else 2 if k.startswith("vpmulti") else 1)
+        groups.setdefault(group_key(ci), []).append(ci)
+    weight = lambda k: len(groups[k]) * (6 if k.startswith("mut") or k == "pairs" else 12 if k.startswith("race") else 2 if k.startswith("vpmulti") else 1)
     parts, load = [[] for _ in range(n)], [0] * n
     for k in sorted(groups, key=lambda k: (-weight(k), k)):
         i = load.index(min(load))
@@ -146,6 +161,8 @@ def judge(rep, prop, inp, by_id, results, stats, samples, replay_obj=None):
                     sig.update(presenter=c["presenter"])
                 if str(c.get("vcState", "")).startswith("forged"):
                     sig.update(carried=c["vcState"])
+                if c["fam"] == "status":   # whose list, how long, where the entry is (fresh / cached copy and entry point: see the replay)
+                    sig.update(list=c["list"], size=c["size"], pos=c["pos"])
                 if c.get("seq"):   # first credential that must not be there: class, position, what stands before it
                     bad = [i for i, e in enumerate(c["seq"]) if e in ("tampered", "tampered2", "stripped", "expired", "other-subject")]
                     if bad:
@@ -164,6 +181,27 @@ def judge(rep, prop, inp, by_id, results, stats, samples, replay_obj=None):
                 stats["drift_reason_pairs"][impl + " / " + cls] = stats["drift_reason_pairs"].get(impl + " / " + cls, 0) + 1
             if len(samples) < 3 and c["fam"] not in [s.get("case", {}).get("fam") for s in samples]:
                 samples.append(dict(case=c, required=req, model=impl, method=run["method"], real_verdict=v))
+        # ---- family "race": what the nodes said about the two credentials (and about every list handed out) after each step
+        for d in r.get("drift") or []:
+            stats["drift_reason"] += 1
+            stats["drift_reason_pairs"]["race: " + d] = stats["drift_reason_pairs"].get("race: " + d, 0) + 1
+        for o in r.get("obs") or []:
+            v = o["verdict"]
+            stats["race_answers"] += 1
+            replay = replay_obj or dict(property=prop, input=dict(one_case, method_mode="all"), observed=o, schedule=sched_text(ci.get("sched") or []))
+            if v.get("panic"):
+                rep.violation(dict(kind="panic", site=panic_site(v["panic"])), replay)
+            elif o["source"] == "served-list":
+                # a status list the node's own issuer hands out verifies on any node that can resolve the signer
+                if not v.get("accept"):
+                    rep.violation(dict(kind="own-output-rejected", family="race", format=c["fmt"], what="status-list", reason=err_class(v.get("err"))), replay)
+            elif o["acked"] and v.get("accept"):
+                # Revoke had returned success before the node was asked: "is not revoked" does not hold
+                rep.violation(dict(kind="accepted-invalid", family="race", format=c["fmt"], failing="revoked", node=o["node"], source=o["source"]), replay)
+            elif not o["begun"] and not v.get("accept"):
+                rep.violation(dict(kind="own-output-rejected", family="race", format=c["fmt"], node=o["node"], reason=err_class(v.get("err"))), replay)
+            if o["acked"] and len(samples) < 6 and "race" not in [s.get("case", {}).get("fam") for s in samples]:
+                samples.append(dict(case=c, schedule=sched_text(ci.get("sched") or []), required=req, model=impl, answer=o))
         # ---- mutation families
         m = r.get("mut")
         if m:
@@ -221,7 +259,7 @@ def judge(rep, prop, inp, by_id, results, stats, samples, replay_obj=None):
 def new_stats():
     return dict(evaluations=0, nonmut_runs=0, drift_verdict=0, drift_reason=0, drift_reason_pairs={}, drift_samples=[],
                 mut_instances=0, mut_executed=0, mut_rejected=0, mut_same_view=0, mut_paths=0, mut_unrealised=0,
-                mut_realised=0, mut_accepted_semantic=0, mut_accepted_unconstrained=0, unconstrained_classes={}, semantic_classes={})
+                mut_realised=0, mut_accepted_semantic=0, mut_accepted_unconstrained=0, unconstrained_classes={}, semantic_classes={}, race_answers=0)
 
 
 def run(prop, tier, seed, replay=None):
@@ -242,17 +280,20 @@ def run(prop, tier, seed, replay=None):
     quick = tier == "quick"
     # 1. the prescriptive variant (both deviations repaired) satisfies the statement on the complete product
     # (the prescriptive check and the generation run explore the same graph: run them side by side, 4 + 4 TLC workers)
-    with ThreadPoolExecutor(max_workers=2) as ex:
+    race_cfg = "Verify.c01.race.%s.cfg" % ("quick" if quick else "thorough")
+    with ThreadPoolExecutor(max_workers=3) as ex:
         f_chk = ex.submit(vlib.tlc, "MCVerify", "Verify.c01.check.cfg", workers=4, timeout=600, coverage=not quick)
         f_gen = ex.submit(vlib.tlc, "MCVerify", "Verify.c01.gen.cfg", workers=4, timeout=600)
-        chk, gen = f_chk.result(), f_gen.result()
+        f_race = ex.submit(vlib.tlc, "MCVerify", race_cfg, workers=2, timeout=600)
+        chk, gen, race = f_chk.result(), f_gen.result(), f_race.result()
     if chk.error:
         raise Inconclusive("TLC Verify.c01.check.cfg: %s" % chk.error)
     if chk.violation:
         raise Inconclusive("prescriptive model violates %s:\n%s" % (chk.violation, chk.raw[-2500:]))
     models = [dict(cfg="Verify.c01.check.cfg", states=chk.distinct, transitions=chk.generated, depth=chk.depth, wall_s=round(chk.wall, 1))]
     if not quick:
-        missing = [a for a in ("ChooseAny", "Issue", "Forge", "Present", "Mutate", "Verify") if not chk.coverage.get(a)]
+        missing = [a for a in ("ChooseAny", "Issue", "Forge", "Present", "Mutate", "Verify", "IssueExt", "SetBit", "Age", "OpBegin", "OpEnd",
+                               "Download", "Finish") if not chk.coverage.get(a)]
         if missing:
             raise Inconclusive("vacuity: actions never fired: %s" % missing)
         dev = vlib.tlc("MCVerify", "Verify.c01.deviation.cfg", workers=4, timeout=300)
@@ -263,6 +304,12 @@ def run(prop, tier, seed, replay=None):
         if dev2.violation != "AcceptOnlyIf":
             raise Inconclusive("vacuity: the didstore variant is expected to violate AcceptOnlyIf, TLC says %s %s" % (dev2.violation, dev2.error))
         models.append(dict(cfg="Verify.c01.deviation2.cfg", states=dev2.distinct, transitions=dev2.generated, expected_violation="AcceptOnlyIf"))
+        for cfg, inv, what in (("Verify.c01.deviation3.cfg", "AcceptOnlyIf", "a verifier that decodes only the minimum length of a status list"),
+                               ("Verify.c01.deviation4.cfg", "RevokedRejected", "a status list built from revocations read before the row lock")):
+            d = vlib.tlc("MCVerify", cfg, workers=4, timeout=300)
+            if d.violation != inv:
+                raise Inconclusive("vacuity: %s is expected to violate %s, TLC says %s %s" % (what, inv, d.violation, d.error))
+            models.append(dict(cfg=cfg, states=d.distinct, transitions=d.generated, expected_violation=inv))
     # 2. the descriptive variant (the code as it is) prints every case with the verdict required by the statement
     if not gen.ok:
         raise Inconclusive("generation run failed: %s %s" % (gen.violation, gen.error))
@@ -270,6 +317,19 @@ def run(prop, tier, seed, replay=None):
     cases = []
     for p in gen.printed:
         cases.append(dict(id=case_id(p["case"]), case=p["case"], req=p["req"], impl=p["impl"], failing=p.get("failing") or []))
+    # family "race": the behaviours of the status list state machine (prescriptive = the code as it is: the invariants hold on all of them)
+    if not race.ok:
+        raise Inconclusive("TLC %s: %s %s\n%s" % (race_cfg, race.violation, race.error, race.raw[-1500:]))
+    models.append(dict(cfg=race_cfg, states=race.distinct, transitions=race.generated, behaviours=len(race.printed), wall_s=round(race.wall, 1)))
+    n_race = 0
+    for p in race.printed:
+        # the proof format of the two credentials is independent of the schedule: quick runs every schedule in one (seeded) format
+        if quick and int(hashlib.sha1(("%d|%s" % (seed, json.dumps(p["sched"], sort_keys=True))).encode()).hexdigest(), 16) % 2 != (p["case"]["fmt"] == "jwt"):
+            continue
+        n_race += 1
+        cases.append(dict(id=case_id(p["case"], p["sched"]), case=p["case"], req=p["req"], impl=p["impl"], failing=p.get("failing") or [], sched=p["sched"]))
+    if not n_race:
+        raise Inconclusive("%s printed no behaviour" % race_cfg)
     n_enumerated = len(cases)
     if quick:
         # presentations with THREE credentials: a seeded half of the 2 x 2 x 2 x 729 sequences (all of them in thorough);
@@ -295,7 +355,7 @@ def run(prop, tier, seed, replay=None):
 
     # 4. verdicts
     judge(rep, prop, inp, by_id, results, stats, samples)
-    n_nonmut = sum(1 for c in cases if c["case"]["fam"] in ("vc", "vpsig", "vpvc", "vpmulti"))
+    n_nonmut = sum(1 for c in cases if c["case"]["fam"] in ("vc", "vpsig", "vpvc", "vpmulti", "status"))
     if len(rep.inconclusive) <= 2:
         rep.inconclusive = []
     if stats["drift_verdict"] > max(5, len(cases) // 50) and not rep.violations:
@@ -312,12 +372,18 @@ def run(prop, tier, seed, replay=None):
         fam_counts[k] = fam_counts.get(k, 0) + 1
     cov = dict(
         evaluations=stats["evaluations"],
-        distinct_nontrivial=stats["nonmut_runs"] + stats["mut_executed"] - stats["mut_same_view"],
+        distinct_nontrivial=stats["nonmut_runs"] + stats["mut_executed"] - stats["mut_same_view"] + n_race,
         rule="TLC enumerates the complete abstract product of Verify.tla (families vc, vpsig, vpvc, vpmulti [presentations carrying every "
              "sequence of 2..3 credentials over 9 element classes incl. same-id tampered copies, through verifier.VerifyVP and the REST "
              "handler; the credentials handed out as verified are re-verified one by one]: document attributes x proof format x "
              "signer DID-document history x validation time x trust x revocation x flags; family mut: MutationClass x PathClass x "
-             "format x position); each abstract case is one distinct TLC behaviour. Every non-mutation case is built from real objects "
+             "format x position; family status: own / external status list x list length (16384, 16385, 32768, 131072 bytes) x entry position "
+             "(first, last of a minimum list, first beyond it, last) x revoked x fresh / cached copy x entry point (Verify, REST, carried by a "
+             "presentation)); each abstract case is one distinct TLC behaviour. Family race: every maximal behaviour of the status-list state "
+             "machine (Revoke x download x ageing of the stored list x a download by a verifier node; operations stopped where they open their "
+             "SQL transaction) is replayed on the real issuer with its own issuer DID and list, and after EVERY step the producing node (and at "
+             "downloads the verifying node, fresh and cached) is asked about both credentials: one that Revoke has acknowledged must be refused, "
+             "one never revoked must verify, every list handed out must verify. Every non-mutation case is built from real objects "
              "(issuer.Issue / forged by an attacker key / wallet.BuildPresentation / issuer.Revoke / status list) on node A and verified "
              "by the real verifier of node B that holds the scripted DID history (one DID method per case in quick, all in thorough). "
              "Every abstract mutation case is realised by the concrete (document, path, operator) triples of its class over the base "
@@ -330,6 +396,7 @@ def run(prop, tier, seed, replay=None):
         states=sum(m["states"] for m in models), transitions=sum(m["transitions"] for m in models),
         models=models, abstract_cases=len(cases) - 2, abstract_cases_enumerated_by_tlc=n_enumerated, abstract_cases_by_family_and_requirement=fam_counts,
         nonmutation_cases=n_nonmut, nonmutation_runs=stats["nonmut_runs"],
+        race_behaviours_replayed=n_race, race_answers_judged=stats["race_answers"],
         mutation_classes_realised=stats["mut_realised"], mutation_classes_without_concrete_instance=stats["mut_unrealised"],
         concrete_mutants_available=stats["mut_instances"], concrete_mutants_executed=stats["mut_executed"],
         member_x_operatorclass_pairs_touched=stats["mut_paths"],
@@ -349,5 +416,9 @@ def run(prop, tier, seed, replay=None):
         "JSON-LD operators that keep the RDF dataset (array order, duplicate elements, singleton arrays) and edits of @context carry no requirement",
         "a mutant whose parsed form (go-did struct, re-marshalled) equals the original is the same document for the node",
         "validation with checkSignature=false (wallet listing) carries no signature requirement",
+        "status lists: SQL transactions are atomic steps (sqlite, one connection); an operation is stopped only where it opens its transaction, "
+        "so every read it made before lies before a concurrent operation and every read inside the transaction after it",
+        "a verifier node that holds a copy of a list younger than 15 minutes made BEFORE the revocation is not asked (freshness is C11)",
+        "an unrevoked credential of an EXTERNAL issuer carries no requirement (the converse of the statement speaks about the node's own output)",
     ])
     return rep.finish()
